@@ -482,10 +482,10 @@ pub fn build_hand(name: &str, rng: &mut Rng) -> Built {
         "s2pdu" => {
             let max = *rng.pick(&[5usize, 50, 5000]);
             let tail = *rng.pick(&[0usize, 1, 3, 20]);
-            params = vec![max as u64, tail as u64];
+            params = vec![100, max as u64, tail as u64];
             alphabets = vec![(1 << 32, vec![])];
             let (fi, r) = feeder::<u32>(rng.below(5000));
-            let (b, o) = StreamToPdu::new(r, "k0", max, tail);
+            let (b, o) = StreamToPdu::new(r, "k100", max, tail);
             Rig { block: Box::new(b), ins: vec![fi], outs: vec![pkt_drainer(o)] }
         }
         "v2s" => {
@@ -496,7 +496,8 @@ pub fn build_hand(name: &str, rng: &mut Rng) -> Built {
         }
         "totext" => {
             let n = rng.range(1, 3);
-            alphabets = (0..n).map(|_| (1000, vec![])).collect();
+            params = vec![n as u64];
+            alphabets = (0..n).map(|_| (*rng.pick(&[1000u64, 10, 1 << 32]), vec![])).collect();
             let mut fs: Vec<Box<dyn InPort>> = vec![];
             let mut rs = vec![];
             for _ in 0..n {
@@ -572,7 +573,13 @@ fn gen_inspecs(built: &Built, rng: &mut Rng, heavy_tags: bool) -> Vec<InSpec> {
                     left -= k;
                 }
             }
-            let tags = if pkts.is_empty() { gen_tags(rng, len, heavy_tags) } else { vec![] };
+            let tags = if built.name == "s2pdu" {
+                gen_burst_tags(rng, len)
+            } else if pkts.is_empty() {
+                gen_tags(rng, len, heavy_tags)
+            } else {
+                vec![]
+            };
             InSpec { pkts, len, seed: rng.next() >> 8, m: *m, tbl: tbl.clone(), tags }
         })
         .collect()
@@ -668,6 +675,53 @@ fn arity_rig(rng: &mut Rng, nin: usize, nout: usize) -> Rig {
     Rig { block, ins: fs, outs: outs.into_iter().map(|o| drainer(o) as Box<dyn OutPort>).collect() }
 }
 
+/// `eof()` of derive-generated blocks: true iff EVERY input has ended (writer gone) and is drained.
+/// All combinations of (writer dropped?, a sample still queued?) per input, arities 1..3 x 1..3,
+/// sync_tag blocks and library blocks with two inputs.
+pub fn eof_probes(rng: &mut Rng) -> Vec<String> {
+    let mut out = vec![];
+    let mut cfgs: Vec<(String, Box<dyn Fn(&mut Rng) -> Rig>)> = vec![];
+    for nin in 1..=3usize {
+        for nout in 1..=3usize {
+            cfgs.push((format!("arity {nin} {nout}"), Box::new(move |r: &mut Rng| arity_rig(r, nin, nout))));
+        }
+    }
+    for name in ["aritytag", "add_f32", "xor", "f2c", "add_int", "bursttagger", "tee", "nrzi"] {
+        cfgs.push((name.to_string(), Box::new(move |r: &mut Rng| build(name, r).rig)));
+    }
+    for (label, mk) in &cfgs {
+        // (a catalogue entry may build blocks of different arity: the masks follow the rig actually built)
+        for rep in 0..64u32 {
+            {
+                let mut rig = mk(rng);
+                let nin = rig.ins.len();
+                let closed = rep % (1 << nin);
+                let queued = (rep >> nin) % (1 << nin);
+                if rep >= 1 << (2 * nin) && nin < 3 && !label.starts_with("aritytag") {
+                    continue;
+                }
+                for j in 0..nin {
+                    if queued & (1 << j) != 0 {
+                        rig.ins[j].push(&[1], &[]);
+                    }
+                    if closed & (1 << j) != 0 {
+                        rig.ins[j].close();
+                    }
+                }
+                let got = quiet(|| rig.block.eof());
+                let want = closed == (1 << nin) - 1 && queued == 0;
+                let v = match got {
+                    Ok(g) if g == want => "pass".to_string(),
+                    Ok(g) => format!("FAIL eof() = {g}, specification: {want}"),
+                    Err(p) => format!("FAIL panic: {p}"),
+                };
+                out.push(format!("!eof {label} inputs={nin} writer-gone-mask={closed:b} sample-queued-mask={queued:b}\t{v}"));
+            }
+        }
+    }
+    out
+}
+
 /// One drip-feed case of block `name`. Returns `request<TAB>observed`.
 pub fn case(name: &str, rng: &mut Rng, steps: usize, heavy_tags: bool) -> String {
     let built = build(name, rng);
@@ -686,7 +740,8 @@ pub fn case(name: &str, rng: &mut Rng, steps: usize, heavy_tags: bool) -> String
                 3 => rng.range(0, 3 * in_cap),
                 _ => rng.range(0, 700),
             };
-            InSpec { pkts: vec![], len, seed: rng.next() >> 8, m: *m, tbl: tbl.clone(), tags: gen_tags(rng, len, heavy_tags) }
+            let tags = if built.name == "s2pdu" { gen_burst_tags(rng, len) } else { gen_tags(rng, len, heavy_tags) };
+            InSpec { pkts: vec![], len, seed: rng.next() >> 8, m: *m, tbl: tbl.clone(), tags }
         })
         .collect();
     let lens: Vec<usize> = ins.iter().map(|i| i.len).collect();
@@ -705,7 +760,7 @@ pub fn run(args: &[String]) -> Vec<String> {
     let only_block = arg(args, "--block");
     let mut out = Vec::new();
     let names: Vec<&str> = match set.as_str() {
-        "modelled" => SYNC_NAMES.iter().chain(ARITY_NAMES.iter()).chain(["skip", "delay", "resampler", "rtlsdr"].iter()).copied().collect(),
+        "modelled" => SYNC_NAMES.iter().chain(ARITY_NAMES.iter()).chain(["skip", "delay", "resampler", "rtlsdr", "s2pdu", "totext"].iter()).copied().collect(),
         "sync" => SYNC_NAMES.to_vec(),
         "arity" => ARITY_NAMES.to_vec(),
         "hand" => HAND_NAMES.to_vec(),
@@ -723,6 +778,10 @@ pub fn run(args: &[String]) -> Vec<String> {
     let mut rng = Rng::new(seed);
     // every stream a block creates for its outputs is one page
     rustradio::verif::set_stream_size(4096);
+    if arg_usize(args, "--eof-probes", 0) != 0 {
+        let mut r = rng.fork();
+        out.extend(eof_probes(&mut r));
+    }
     for i in 0..cases {
         let mut r = rng.fork();
         let name = match &only_block {
